@@ -21,14 +21,16 @@ func profileByName(name string) Profile {
 		p.MinFns, p.MaxFns = 4, 12
 		p.PMidInvoke = 0.4
 	case "keys":
-		p.Types = []int{tAny, 0, 1, 3, 8, 19}
+		p.Types = []int{tAny, 0, 1, 3, 8, 19, tTwinA, tTwinB}
+		p.Twins = true
 		// names and groups that differ only in case or surrounding blanks are different keys
 		p.Names = []string{"", "n1", "q\"x", "n1 ", "N1"}
 		p.Groups = []string{"g1", "g2", "n1", "g1 ", " g1", "G1"}
 		p.PNamed, p.PAs, p.PDup, p.PGroupRes, p.PGroupPar = 0.6, 0.3, 0.2, 0.3, 0.3
 	case "groups":
 		p.PGroupRes, p.PGroupPar, p.PSoft, p.PFlatten, p.PDecorate = 0.5, 0.5, 0.12, 0.4, 0.1
-		p.Types = []int{0, tSliceV, 1, 2} // group keys use the first two types; VS: members of slice kind, nil ones included
+		p.Types = []int{0, tSliceV, 1, 2}
+		p.GroupTypes = []int{0, tSliceV, tPtrBase, 0} // VS: members of slice kind, nil ones included; *V0: one pointer twice
 		p.MaxScopes, p.PExport = 5, 0.3
 		p.PAs = 0.15
 		p.PMidInvoke = 0.4
